@@ -357,6 +357,23 @@ def run_helmholtz(case):
     S.outcome(("helm", text))
 
 
+def run_helmholtz_reject(case):
+    """case = a Helmholtz text that holds no note letter: it names no note and must be refused, the note staying as it was"""
+    S = engine.S
+    text = case
+    m = Note("D", 1, velocity=70, channel=2)
+    try:
+        m.from_shorthand(text)
+    except Exception:                                       # noqa -- any error is a rejection
+        S.count("helmholtz_texts_refused")
+        if (m.name, m.octave, m.velocity, m.channel) != ("D", 1, 70, 2):
+            S.problem("from_shorthand(%r) refused: the note afterwards" % text, ["D", 1, 70, 2], [m.name, m.octave, m.velocity, m.channel])
+    else:
+        S.problem("from_shorthand(%r) (no note letter in the text)" % text, "refused (malformed names are rejected)", [m.name, m.octave])
+    S.trans(1)
+    S.outcome(("helm_reject", len(text)))
+
+
 # ---------------------------------------------------------------------------------------
 # bounds
 # ---------------------------------------------------------------------------------------
@@ -747,6 +764,7 @@ CLAUSES = {
     "sorting": run_sorting,
     "hertz": run_hertz,
     "helmholtz": run_helmholtz,
+    "helmholtz_reject": run_helmholtz_reject,
     "bounds": run_bounds,
     "malformed": run_malformed,
     "wellformed": run_wellformed,
@@ -793,6 +811,11 @@ def explore(ctx):
     if ctx.want("hertz_pairs"):
         sps = ctx.pick(STANDARD_PITCHES_Q, STANDARD_PITCHES_T)
         ctx.product("hertz_pairs", list(sps), lambda sp1: ([k, sp1, sp2] for k in range(0, 128) for sp2 in sps if sp2 != sp1))
+    if ctx.want("helmholtz_reject"):
+        import itertools as _it
+        texts = ["".join(t) for n in range(0, 4) for t in _it.product("',#hx 1-", repeat=n)]
+        ctx.bound("helmholtz_reject", "%d texts over \"',#hx 1-\" of length <= 3 (no note letter)" % len(texts))
+        ctx.serial("helmholtz_reject", texts)
     if ctx.want("helmholtz"):
         ctx.product("helmholtz", octaves, _gen_pitch)
     if ctx.want("bounds"):
